@@ -12,24 +12,13 @@ mentioning a script declaration at any depth is refused for every Rust type
 (`ident_only_gate_reinterprets`: with the identifier alone compared, `enum Option[T] { None,
 Some(T) }` is admitted as `Option<u32>` and Rust's `Some(5)` is the script's `None`).
 -/
-import RotoV.Model.BoundaryGate
+import RotoV.Lemmas.BoundaryGate
 import RotoV.Lemmas.BoundaryValues
 import RotoV.Lemmas.BoundaryAbi
 
 namespace RotoV.C05
 
 open RotoV RotoV.Boundary RotoV.Gen.BoundaryTables
-
-/-! the generated arms, looked up -/
-
-theorem arm_option : armFor gateArms .option = some ⟨.option, .global, .option, 1, [(0, 0)]⟩ := by decide
-theorem arm_list : armFor gateArms .list = some ⟨.list, .global, .list, 1, [(0, 0)]⟩ := by decide
-theorem arm_result : armFor gateArms .result = some ⟨.result, .global, .result, 2, [(0, 0), (1, 1)]⟩ := by decide
-theorem arm_verdict : armFor gateArms .verdict = some ⟨.verdict, .global, .verdict, 2, [(0, 0), (1, 1)]⟩ := by decide
-theorem leaf_scope : gateLeafScope = .global := by decide
-theorem tables_agree :
-    rotoOptionVariants = defaultOption ∧ rotoResultVariants = defaultResult ∧ verdictVariants = defaultVerdict := by
-  decide
 
 /-- **`registry_describes_in_order`.**  What `Value::resolve` stores for the generic Rust types
     (generated): `Option<T>` is described as `Option(T)`, `Result<T, E>` as `Result(T, E)`,
@@ -42,71 +31,6 @@ theorem registry_describes_in_order :
     ∧ gateArms.all (fun a => a.ident = a.head ∧ a.scope = .global) = true
     ∧ gateArms.map (·.head) = [.verdict, .result, .option, .list] := by
   decide
-
-/-- what the gate's answer `true` means, one constructor at a time -/
-theorem gate_option_inv {r : RTy} {t : STy} (h : gate gateArms (.option r) t = true) :
-    ∃ d a, t = .name1 .global (.generic .option) d a ∧ gate gateArms r a = true := by
-  unfold gate at h
-  rw [arm_option] at h
-  cases t <;> simp [nameTest, STy.scope?, STy.ident?, STy.arity] at h
-  case name1 s i d a =>
-    obtain ⟨⟨hs, hi⟩, hg⟩ := h
-    exact ⟨d, a, by subst hs; subst hi; rfl, hg⟩
-
-theorem gate_list_inv {r : RTy} {t : STy} (h : gate gateArms (.list r) t = true) :
-    ∃ d a, t = .name1 .global (.generic .list) d a ∧ gate gateArms r a = true := by
-  unfold gate at h
-  rw [arm_list] at h
-  cases t <;> simp [nameTest, STy.scope?, STy.ident?, STy.arity] at h
-  case name1 s i d a =>
-    obtain ⟨⟨hs, hi⟩, hg⟩ := h
-    exact ⟨d, a, by subst hs; subst hi; rfl, hg⟩
-
-theorem gate_result_inv {r1 r2 : RTy} {t : STy} (h : gate gateArms (.result r1 r2) t = true) :
-    ∃ d a b, t = .name2 .global (.generic .result) d a b ∧ gate gateArms r1 a = true ∧ gate gateArms r2 b = true := by
-  unfold gate at h
-  rw [arm_result] at h
-  cases t <;> simp [nameTest, STy.scope?, STy.ident?, STy.arity] at h
-  case name2 s i d a b =>
-    obtain ⟨⟨hs, hi⟩, hg⟩ := h
-    exact ⟨d, a, b, by subst hs; subst hi; rfl, hg⟩
-
-theorem gate_verdict_inv {r1 r2 : RTy} {t : STy} (h : gate gateArms (.verdict r1 r2) t = true) :
-    ∃ d a b, t = .name2 .global (.generic .verdict) d a b ∧ gate gateArms r1 a = true ∧ gate gateArms r2 b = true := by
-  unfold gate at h
-  rw [arm_verdict] at h
-  cases t <;> simp [nameTest, STy.scope?, STy.ident?, STy.arity] at h
-  case name2 s i d a b =>
-    obtain ⟨⟨hs, hi⟩, hg⟩ := h
-    exact ⟨d, a, b, by subst hs; subst hi; rfl, hg⟩
-
-theorem gate_prim_inv {p : Primitive} {t : STy} (h : gate gateArms (.prim p) t = true) :
-    ∃ d, t = .name0 .global (.prim p) d := by
-  unfold gate at h
-  rw [leaf_scope] at h
-  cases t <;> simp [STy.scope?, STy.ident?, STy.arity] at h
-  case name0 s i d =>
-    obtain ⟨hs, hi⟩ := h
-    exact ⟨d, by subst hs; subst hi; rfl⟩
-
-theorem gate_val_inv {id : Nat} {l : Layout} {t : STy} (hw : t.WF = true)
-    (h : gate gateArms (.val id l) t = true) : ∃ s i, t = .name0 s i (.runtime id) := by
-  unfold gate at h
-  simp only [Bool.and_eq_true] at h
-  obtain ⟨_, h⟩ := h
-  cases t <;> simp [STy.decl?] at h
-  case name0 s i d =>
-    cases d <;> simp at h
-    subst h; exact ⟨s, i, rfl⟩
-  case name1 s i d a =>
-    cases d <;> simp at h
-    simp [STy.WF, STy.WF.noParams] at hw
-  case name2 s i d a b =>
-    cases d <;> simp at h
-    simp [STy.WF, STy.WF.noParams] at hw
-  case nameN s i d k =>
-    cases d <;> simp at h
-    simp [STy.WF, STy.WF.noParams] at hw
 
 /-- **`crossing_types_are_host_types`** (∀ Rust types, ∀ signature types of any nesting).  A type
     the gate admits mentions no script declaration at any depth: what crosses the boundary is
